@@ -2140,7 +2140,10 @@ class GAM(Core, MetaTermMixin):
 
         # copy over the best
         if keep_best:
-            self.set_params(deep=True, force=True, **best_model.get_params(deep=True))
+            # copy, so that self and the returned winner do not share mutable state
+            self.set_params(
+                deep=True, force=True, **deepcopy(best_model.get_params(deep=True))
+            )
         if return_scores:
             return OrderedDict(zip(models, scores))
         else:
